@@ -91,4 +91,16 @@ C15_DocsM == <<SD("dict", NoVal, <<<<C15_KA, SD("dict", NoVal, <<<<C15_KB, SD("l
 \* a small set for 3-stage histories (any document at any stage)
 C15_Docs3 == SetToSeq({SD("dict", NoVal, <<<<C15_KA, c>>>>) : c \in C15_Old(1) \cup C15_New(1)})
 
+\* deep chains: a list / mapping four mapping levels below the node whose !merge / !del it inherits (the marker relations put
+\* !unsafe / !new on every level in turn: what is inherited must still arrive at the bottom)
+C15_Chain(leaf) == SD("dict", NoVal, <<<<SKey("u"), SD("dict", NoVal, <<<<SKey("x"), SD("dict", NoVal, <<<<SKey("y"),
+                       SD("dict", NoVal, <<<<SKey("l"), leaf>>>>)>>>>)>>>>)>>>>)
+C15_DeepOld == {SD("dict", NoVal, <<<<C15_KA, C15_Chain(SD("list", NoVal, <<<<IKey(0), C15_L("1")>>, <<IKey(1), C15_L("2")>>, <<IKey(2), C15_L("3")>>>>))>>>>),
+                SD("dict", NoVal, <<<<C15_KA, C15_Chain(SD("dict", NoVal, <<<<SKey("p"), C15_L("1")>>, <<SKey("q"), C15_L("2")>>>>))>>>>)}
+C15_DeepNew == {SD("dict", NoVal, <<<<C15_KA, WithTag(C15_Chain(leaf), t)>>>>) :
+                   leaf \in {SD("list", NoVal, <<<<IKey(0), C15_L("9")>>>>), SD("dict", NoVal, <<<<SKey("p"), C15_L("9")>>>>)},
+                   t \in {"none", "merge", "del"}}
+C15_DocsDeep  == SetToSeq(C15_DeepOld) \o SetToSeq(C15_DeepNew)
+C15_RangeDeep == << <<1, Cardinality(C15_DeepOld)>>, <<Cardinality(C15_DeepOld) + 1, Cardinality(C15_DeepOld) + Cardinality(C15_DeepNew)>> >>
+
 =============================================================================
